@@ -207,7 +207,7 @@ func (v *Version) String() string {
 func (v *Version) Compare(other *Version) int {
 	// Handle invalid versions (no numeric components) - use string comparison
 	if v.numeric == nil || other.numeric == nil {
-		return strings.Compare(v.original, other.original)
+		return strings.Compare(strings.TrimSpace(v.original), strings.TrimSpace(other.original))
 	}
 
 	// 1. Compare numeric components (leading zeros are ignored - use actual numeric values)
